@@ -3,8 +3,12 @@ PROP = dict(
     engines=["c29"],
     go_tags=["c29"],
     gen_files={},
+    extract_files={"MM/Gen/LockC29.lean": {"cmd": ["go", "run", "{VERIF}/tools/lockshape.go", "LockC29",
+        "{REPO}/internal/flood/flood.go", "Flooder.markSleepCmdSeen,Flooder.cleanup", "sleepCmdMu", "sleepCmdSeenCache"]}},
     lean_modules=["MM.Props.C29"],
     theorems=[
+        "MM.C29.C29_tie_test_and_set",
+        "MM.C29.C29_tie_cleanup_locked",
         "MM.C29.C29_partial",
         "MM.C29.C29_refuted",
         "MM.C29.C29_evict_witness",
@@ -22,6 +26,9 @@ PROP = dict(
          "accepted, or a cleanup/keys/peer observation",
     nontrivial=lambda op, out: ("acc=1" in out) or op.startswith(("cleanup", "keys", "peer")),
     trusted_base=[
+        "deliveries and cleanups are atomic steps of the history model: tied by lock-shape facts (tools/lockshape.go -> MM/Gen/LockC29.lean: "
+        "markSleepCmdSeen is ONE sleepCmdMu section containing both the lookup and the insert; cleanup calls cleanupSleepCmdCache with the lock "
+        "held) and by a concurrency stress op (one command delivered from many goroutines is accepted exactly once)",
         "virtual clock: `adv d` shifts SeenAt / pendingWakeAt by -d and re-signs the stored pending wake with its timestamp shifted by -d "
         "(accessor VerifC29Age); later commands are stamped relative to the virtual clock — the code itself reads time.Now()",
         "Ed25519 modelled as an ideal signature scheme in the engine; C29_partial holds for ANY verification predicate",
@@ -44,3 +51,20 @@ PROP = dict(
         technique="Lean 4 proof (history induction with a protection invariant) + machine-checked refutations + differential correspondence harness",
     ),
 )
+
+
+def extra(c):
+    """Concurrency stress on the real Flooder (needs no Lean build, so it also runs when a lock-shape tie theorem broke):
+    one fresh valid command delivered from many goroutines at once must be accepted exactly once."""
+    if not c.harness:
+        return
+    ops = []
+    for k in range(300 if c.tier == "quick" else 3000):
+        ops += ["reset %d 9 18500 10000" % (1 if k % 4 == 0 else 0), "stress %d" % (4 + k % 13)]
+    out = c.go_run("c29", ops, timeout=300)
+    bad = [i for i, o in enumerate(out) if ops[i].startswith("stress") and o != "stress acc=1"]
+    c.oblige("stress:seen-cache-test-and-set", "tie", not bad, out[bad[0]] if bad else "%d stress rounds" % (len(ops) // 2))
+    if bad:
+        i = bad[0]
+        c.violate("one signed command delivered concurrently was accepted more than once: " + out[i],
+                  {"engine": "c29", "origin": "stress", "ops": ops[i - 1:i + 1], "impl_outputs": out[i - 1:i + 1]}, True)
